@@ -13,6 +13,7 @@ import P2.Model.GroupCrdt
 import P2.Lemmas.GroupState
 import P2.Lemmas.GroupCrdt
 import P2.Props.C32
+import P2.Extracted.C31
 import Mathlib.Data.List.Perm.Basic
 
 namespace P2.C31
@@ -435,6 +436,59 @@ theorem c31_converge {ltM ltQ : Access C → Access C → Bool} (hM : Total ltM)
         (rootMembers (mergeAll ltM (replica o₂).headStates) g) := by
   obtain ⟨w₁, w₂, hs⟩ := hres o₁ o₂ c₁ c₂ hp
   exact c31_converge_partial hM hQ le _ _ w₁ w₂ hs g depth
+
+/-! ## Tie to the current source text (regenerated into `P2/Extracted/C31.lean` on every run) -/
+
+section Source
+open P2.Extracted.C31
+
+/-- The model's `accessPcmp` *is* `impl PartialOrd for Access<C>::partial_cmp` as written in `access.rs`
+    now (its nested `match` translated arm by arm, or-patterns expanded, arms in source order). -/
+theorem c31_partial_cmp_is_source (cmpC : C → C → Option Ordering) (a b : Access C) :
+    accessPcmp cmpC a b = partialCmpT cmpC a.cond b.cond a.level b.level := by
+  unfold accessPcmp partialCmpT
+  cases a.cond <;> cases b.cond <;> simp only
+  · cases compare a.level b.level <;> rfl
+  · rename_i x y
+    cases cmpC x y with
+    | none => rfl
+    | some o => cases o <;> simp only <;> cases compare a.level b.level <;> rfl
+
+/-- The per-path access (`next_access`, the `<=` against the root access) and the combination of two
+    paths (`if *current < next`) of the model are the expressions in `members_inner` now. -/
+theorem c31_traversal_ops_are_source (le lt : Access C → Access C → Bool) (root : Option (Access C))
+    (a cur next : Access C) :
+    nextAccess le root a = nextAccessT le root a
+    ∧ (combineT lt cur next).1 = (if lt cur next then next else cur) := by
+  constructor
+  · unfold nextAccess nextAccessT
+    cases root <;> rfl
+  · unfold combineT
+    cases lt cur next <;> simp
+
+/-- The frame of `members_inner` / `traverse_members` / `merge_states` / `heads` transcribed in the model:
+    depth guard `==` against `MAX_NESTED_DEPTH` (= the model's bound), state re-read per level, iteration
+    over `access_levels()`, recursion into `Group` members with `Some(next_access)`, new members inserted
+    with `next_access`; `merge_states` folds `state::merge(state, current)` over `ids` and inserts absent
+    groups; heads are the `Outgoing` externals; `Ord::cmp` falls back to `Less`. -/
+theorem c31_traversal_frame_is_source :
+    maxNestedDepth = maxNestedDepthSrc
+    ∧ depthGuard = "depth == MAX_NESTED_DEPTH"
+    ∧ traversalState = "self.current_state()"
+    ∧ traversalLoop = "(member, access) in group_state.access_levels()"
+    ∧ recursionGuard = "GroupMember::Group(id) = member"
+    ∧ recursionArgs = "id, members, Some(next_access), depth"
+    ∧ combineAbsent = "|| next_access.clone()"
+    ∧ traverseStart = "self.members_inner(group_id, &mut members, None, depth)"
+    ∧ mergeStatesCall = "state::merge(state.clone(), current_state.clone())"
+    ∧ mergeStatesAbsent = "or_insert(state)"
+    ∧ mergeStatesLoop = "id in ids"
+    ∧ mergeStatesMissing = "GroupCrdtInnerError::StatesNotFound"
+    ∧ headsDirection = "petgraph::Direction::Outgoing"
+    ∧ ordCmpBody = "self.partial_cmp(other).unwrap_or(Ordering::Less)" := by
+  exact ⟨rfl, rfl, rfl, rfl, rfl, rfl, rfl, rfl, rfl, rfl, rfl, rfl, rfl, rfl⟩
+
+end Source
 
 /-! ## The pinned tree: order-dependent answers -/
 
